@@ -61,6 +61,38 @@ func judgeC06(role string, steps []string, w *World, res *MonitorResult) {
 			}
 		}
 	}
+	// "... and keeps trying to claim the output with the preimage until it succeeds": a process that is alive, has
+	// paid, and met at most a few failures of its wallet (each injected fault fails ONE call) must have claimed
+	nFaults, paid, last := 0, false, ""
+	for _, st := range steps {
+		if strings.HasPrefix(st, "fault preimage") {
+			nFaults++
+		}
+	}
+	crashed := false
+	for _, o := range w.obs {
+		switch o.Kind {
+		case "pay":
+			if o.A["kind"] == "claim" && (o.A["out"] == "success" || o.A["out"] == "existing-succeeded") {
+				paid = true
+			}
+		case "persist":
+			last = o.A["state"]
+		case "crash":
+			crashed = true
+		case "restart":
+			crashed = false
+		}
+	}
+	if paid && !w.dead && !crashed && nFaults > 0 && nFaults <= 3 && strings.HasSuffix(last, "_ClaimSwap") {
+		res.Histogram["paid, wallet failed once, still claiming?"]++
+		res.addFinding(fmt.Sprintf("C06/%s/stopped-claiming-after-wallet-failure", role),
+			"the taker paid, its wallet failed to build the preimage claim "+fmt.Sprint(nFaults)+" time(s), and it stopped trying (rests in "+last+" with the process alive)",
+			map[string]interface{}{"scenario": scenarioKey(steps)})
+	}
+	if paid && nFaults > 0 && strings.HasSuffix(last, "ClaimedPreimage") {
+		res.Histogram["paid, wallet failed, claimed on retry"]++
+	}
 }
 
 var c06Known = [][2]string{
@@ -79,6 +111,14 @@ func init() {
 			all = append(all, scn{role: k[0], steps: strings.Split(k[1], ";")})
 		}
 		all = append(all, sweepScenarios([]string{"outSender", "inReceiver"})...)
+		// the wallet fails to build the preimage claim once / twice after the payment went out
+		for _, chain := range []string{"btc", "lbtc"} {
+			for _, k := range []int{1, 2} {
+				f := rep("fault preimage down", k)
+				all = append(all, scn{role: "outSender", steps: cat([]string{"new outSender " + chain, "agree", "txmsg"}, f, []string{"confirm"})})
+				all = append(all, scn{role: "inReceiver", steps: cat([]string{"new inReceiver " + chain, "txmsg"}, f, []string{"confirm"})})
+			}
+		}
 		// back-end that returns the existing payment instead of refusing, with a channel balance that only
 		// just covers the claim: an attempt that errors while its HTLC is in flight is followed by a retry
 		tight := defaultCfg()
